@@ -392,6 +392,12 @@ def explore(run, cfg):
     n = 0
     stats = {'paths': 0, 'aborted': 0, 'solver_time': 0.0, 'queries': 0, 'unknown_branches': 0}
     max_paths = cfg.get('max_paths', 3000)
+    # wall-clock budget of one contract: a change that removes an early exit can multiply the paths of a contract; the contract
+    # then ends as undecided with the records produced so far (failed ones are still replayed and reported) instead of keeping the
+    # whole check from reporting anything
+    max_wall = cfg.get('max_wall_s')
+    import time as _time
+    t_start = _time.time()
     while work:
         prefix = work.pop()
         p = Path(prefix, cfg)
@@ -407,4 +413,6 @@ def explore(run, cfg):
         n += 1
         if n > max_paths:
             raise Budget('more than %d paths' % max_paths)
+        if max_wall and work and _time.time() - t_start > max_wall:
+            raise Budget('exploration stopped after %d s (%d paths done)' % (max_wall, n))
     return stats
